@@ -55,8 +55,9 @@ pub struct ScInfo {
 
 pub struct Static {
     pub scenarios: BTreeMap<String, ScInfo>,
-    /// feature name -> (rules, scenarios (expanded), own steps (expanded))
-    pub feature_counts: BTreeMap<String, (usize, usize, usize)>,
+    /// feature index in the plan -> (rules, scenarios (expanded), own steps (expanded))
+    /// (by index, not by name: features may share a name)
+    pub feature_counts: BTreeMap<usize, (usize, usize, usize)>,
 }
 
 fn parse_full_retry_tag(tag: &str) -> Option<u64> {
@@ -139,7 +140,7 @@ impl Static {
                     add(s, Some(r), f);
                 }
             }
-            feature_counts.insert(f.name.clone(), (f.rules.len(), n_sc, n_steps));
+            feature_counts.insert(fi, (f.rules.len(), n_sc, n_steps));
         }
         Self { scenarios, feature_counts }
     }
